@@ -135,6 +135,11 @@ Definition elastic_scan (reject_nil : bool) (timeout : Z) (cancel : option Z) (t
   end.
 
 (* ---------------------------------------------------------------- docker *)
+(* Every Scan builds its own moby client on its own copy of the scanner's http.Client / clone of its transport and
+   clears the proxy function and dialer that moby's options install from the environment (tied by Gen.ProbeConsts:
+   docker_client_opts, docker_probe_transport, docker_transport_resets): requests of a probe go to the probed host
+   only, and probes of different workers share no mutable state.  That is what makes the single-probe model below
+   applicable to a scanner used by many workers at once. *)
 Record dscript := {
   d_ping_head : sched resp_ev;
   d_ping_get : sched resp_ev;
